@@ -425,6 +425,29 @@ class SkyPixSky(Relation):
                       'are expressed in')
         ctx.check(fp(Sreg) == fp_S,
                   f'{cls} | asking for membership modifies the sky region')
+        # ---- the answers follow the region as it is NOW: edit the same
+        # object (include flag, then a size) and ask again with the same WCS
+        # object; the pixel image of the edited region is the reference
+        pp = PixCoord.from_sky(pts, wcs)
+        edits = [('include', lambda r: r.meta.__setitem__(
+            'include', not r.meta.get('include', True)))]
+        for par, f in (('radius', 0.5), ('outer_radius', 1.5), ('width', 0.5),
+                       ('outer_width', 1.5)):
+            if par in getattr(Sreg, '_params', ()):
+                edits.append((par, lambda r, par=par, f=f: setattr(
+                    r, par, getattr(r, par) * f)))
+                break
+        for what, edit in edits:
+            before = np.asarray(Sreg.contains(pts, wcs))
+            edit(Sreg)
+            now = np.asarray(Sreg.contains(pts, wcs))
+            ref = np.asarray(Sreg.to_pixel(wcs).contains(pp))
+            ctx.check(np.array_equal(now, ref),
+                      f'{cls} | after editing {what} on the same object, sky '
+                      'membership is not that of the current pixel image',
+                      lambda: f'{now.tolist()} vs {ref.tolist()} (before the '
+                              f'edit {before.tolist()})')
+            ctx.count('edited_then_asked')
         ctx.nontrivial((W.rot_family(w) == 'wcsrot:generic' or w['parity'] == 1
                         or w['frame'] != 'icrs'))
 
